@@ -458,14 +458,20 @@ class StmtMixin:
             out.append('{')
             out.append('  %s self_;' % rc)
             out.append('  %s* this_ = &self_;' % rc)
-            inits = {}
+            inits = {}; delegating = None
             for c in d.get('inner', []):
                 if c.get('kind') == 'CXXCtorInitializer':
-                    if 'anyInit' not in c: raise Unsupported('base/delegating initializer in ' + cn)
+                    if 'delegatingInit' in c: delegating = c['inner'][0]; continue
+                    if 'anyInit' not in c: raise Unsupported('base initializer in ' + cn)
                     inits[c['anyInit']['name']] = c['inner'][0]
-            for f in owner.get('inner', []):
-                if f.get('kind') != 'FieldDecl': continue
-                self.field_init(f, inits.get(f['name']), out, '  ')
+            if delegating is not None:
+                # delegating constructor: the object is what the target constructor builds
+                e = self.expr(delegating, rvalue=True); self.flush(out, '  ')
+                out.append('  self_ = %s;' % e); self.rules['delegating-constructor'] += 1
+            else:
+                for f in owner.get('inner', []):
+                    if f.get('kind') != 'FieldDecl': continue
+                    self.field_init(f, inits.get(f['name']), out, '  ')
             self.stmt(body[0], out, '  ')
             out.append('  return self_;')
             out.append('}')
